@@ -3,5 +3,5 @@ CONSTANT Configs <- OutcomeNoStop
 SPECIFICATION MCSpec
 VIEW MCView
 CONSTRAINT ExecBound
-INVARIANTS TypeOK C04_Outcome C04_HandlerLog C04_NoRunningLeft
+INVARIANTS TypeOK C04_Outcome C04_HandlerLog C04_ReturnAgrees C04_NoRunningLeft
 CHECK_DEADLOCK FALSE
